@@ -14,6 +14,39 @@ CHECKS = {
     },
 }
 
+CHECKS.update({
+    "C05": {
+        "technique": "static analysis: who-may-call + value-origin slices on MIR (message-id freshness, own-slot delivery), THIR match tables (slot state machine), MutexGuard live ranges via maybe-initialised dataflow (lock order, guard across await), success-edge dominance",
+        "text": "Decides the structural clauses that hold on every schedule: ids given to Request::new come from MessageId::increment on the session's counter (only writer: Session::rpc, &mut self, Session not Clone); the delivered reply comes only from the caller's own slot and a received reply is parked only under its own id, unknown ids take an error edge; the slot state machine has no double delivery / overwrite; the requests guard is held from lookup through send to insert(Pending) and insert follows send's success edge; the lock-order graph is acyclic and the map is not locked across the transport read; Reply::try_from cross-checks the id. NOT decided (not applicable to static analysis): wake-up order, Mutex fairness, progress ('no caller waits forever') under all interleavings.",
+        "note": "Trusts tokio::sync::Mutex mutual exclusion and HashMap semantics; usize overflow of the counter out of scope. Scheduling clauses of C05 are outside this technique.",
+        "design_ref": "DESIGN.md §3 C05",
+    },
+    "C06": {
+        "technique": "static analysis: symbolic evaluation of the search-window start and split position from MIR def chains, must-pass-through reachability (re-search before wait), place-root analysis of buffers, dominance for delimiter placement",
+        "text": "Decides, for every path of the three framing loops, the dataflow facts that make framing independent of segmentation: the search window start is 0 or buf.len() minus at least MARKER.len()-1 at every definition; split position = start + index + MARKER.len(); a find precedes every wait for input and the SSH pump re-searches until no marker is left; buffers persist across calls; to_xml appends the 6-byte marker exactly once after the document. Not decided: concrete chunkings, TLS/SSH record layers (trusted).",
+        "note": "Trusts memchr Finder::find (first occurrence), BytesMut::split_to semantics, in-order delivery by rustls/russh.",
+        "design_ref": "DESIGN.md §3 C06",
+    },
+    "C07": {
+        "technique": "static analysis: exit-edge reachability on MIR (zero-length read / closed-source outcomes must not reach the loop again), success-edge dominance for error propagation",
+        "text": "Decides the 'never spins / every read loop leaves on end-of-stream' clauses on all CFG paths: the byte count of every read_buf in a receive loop is compared with zero and the zero edge cannot reach the read again and ends in Err; in the SSH pump, recv()==None, wait()==None and ChannelMsg::Eof edges leave the loop; Session::recv/ServerMsg::recv/ClientMsg::send propagate transport errors; closed queue => Error::DequeueMessage. NOT decided: 'within bounded time' (timing), half-open connections, russh/rustls internals.",
+        "note": "Trusts read_buf returning Ok(0) at EOF, russh Channel::wait()==None after close, mpsc closure semantics.",
+        "design_ref": "DESIGN.md §3 C07",
+    },
+    "C08": {
+        "technique": "static analysis: control dependence (edge dominance on predicate results) of success-variant constructions in the four reply readers, THIR match tables for IntoResult, origin slices and who-may-write for the error list",
+        "text": "Exact decision of the structural statement over all paths of the four reply readers: every construction of the success variant is dominated by the no-error edge of a predicate on the accumulated errors (is_empty, or no collected error of severity error), every rpc-error acceptance sharing a loop with a success construction is dominated by 'no result yet', IntoResult maps Errs to Err only, the reported Errors is the list the reply's rpc-errors were appended to (only Errors::push mutates it). Not decided: fidelity of the rpc-error leaf parser.",
+        "note": "Trusts quick-xml document-order event delivery and Vec::push ordering.",
+        "design_ref": "DESIGN.md §3 C08",
+    },
+    "C18": {
+        "technique": "static analysis: backward liveness ∩ maybe-initialised dataflow at every coroutine Yield (values of received-data types held across a suspension point), denylist of cancel-unsafe awaited futures, guard-escape scan",
+        "text": "Decides cancellation safety as a liveness question at each suspension point of Session::recv, ServerMsg::recv and the three transport recv coroutines: no PartialReply/Reply/Bytes/BytesMut/String taken off the transport is live across an await, except the listed known finding (Session::recv holds the just-read reply across requests.lock().await; reproduced, see known_findings.json). Not decided: which suspension points a concrete schedule reaches; executor behaviour.",
+        "note": "Trusts tokio's documented cancel-safety of Mutex::lock, mpsc::Receiver::recv, read_buf; a coroutine drop drops exactly its initialised locals.",
+        "design_ref": "DESIGN.md §3 C18",
+    },
+})
+
 NOT_APPLICABLE = {
     "C11": "Equality between a computed prefix-range set and the RPSL denotation over arbitrary IRR data: run-time values in three external crates (rpsl, irrc, generic-ip); no structural necessary condition in this repository's source that is not a frozen copy of today's query plan.",
 }
